@@ -25,7 +25,7 @@ type Profile struct {
 }
 
 func weighted(w map[string]int) []string {
-	order := []string{"resolve", "reserr", "state", "pick", "done", "adv", "failnew", "cancel", "allready", "bindflow", "decall", "readyrepl", "staledown", "emptypool", "saturate", "refreshcycle", "stalede", "affswap", "fbflow", "bindacross", "growmax", "multibind", "fillwm", "affburst", "flaprefresh", "rrempty", "rrstraddle", "unbindrace", "resurrect", "rrwrap", "rrdead", "fbtwice", "rrresurrect", "rrlongwait", "hashpair"}
+	order := []string{"resolve", "reserr", "state", "pick", "done", "adv", "failnew", "cancel", "allready", "bindflow", "decall", "readyrepl", "staledown", "emptypool", "saturate", "refreshcycle", "stalede", "affswap", "fbflow", "bindacross", "growmax", "multibind", "fillwm", "affburst", "flaprefresh", "rrempty", "rrstraddle", "unbindrace", "resurrect", "rrwrap", "rrdead", "fbtwice", "rrresurrect", "rrlongwait", "hashpair", "reserrdown"}
 	var out []string
 	for _, k := range order {
 		for i := 0; i < w[k]; i++ {
@@ -54,6 +54,9 @@ func genStep(p *Profile, cfg *Config) *rapid.Generator[[]Op] {
 			}
 			if rapid.IntRange(0, 11).Draw(t, "expired") == 0 {
 				op.Exp = true
+			}
+			if rapid.IntRange(0, 7).Draw(t, "twinmsg") == 0 {
+				op.Msg = rapid.IntRange(6, 7).Draw(t, "twinkind") // request types of two packages that print alike
 			}
 			if p.Hostile {
 				if rapid.IntRange(0, 5).Draw(t, "hmsg") == 0 {
@@ -458,6 +461,19 @@ func genStep(p *Profile, cfg *Config) *rapid.Generator[[]Op] {
 				ops = append(ops, Op{K: "state", Sel: 5, Key: key, St: 2}, Op{K: "pick", M: 2, Key: key})
 			}
 			return ops
+		case "reserrdown":
+			// a resolver error, then every connection leaves READY (reconnecting, not failing): calls are told to wait exactly
+			// as they would be without the resolver error
+			ops := []Op{{K: "reserr", Out: rapid.IntRange(0, 6).Draw(t, "errkind")}}
+			for i := 0; i < 6; i++ {
+				ops = append(ops, Op{K: "state", Idx: i, St: rapid.SampledFrom([]int{0, 1, 1}).Draw(t, "rdst")})
+			}
+			ops = append(ops, Op{K: "pick", M: 0}, Op{K: "pick", M: 2, Key: rapid.IntRange(0, 3).Draw(t, "rdk")})
+			if rapid.Bool().Draw(t, "rdresolve") {
+				ops = append(ops, Op{K: "resolve", Addrs: rapid.IntRange(0, 2).Draw(t, "rdaddrs"), Cfg: 1}, Op{K: "pick", M: 0})
+			}
+			ops = append(ops, Op{K: "state", Idx: 0, St: 2}, Op{K: "pick", M: 0})
+			return ops
 		case "hashpair":
 			// two keys that collide under a common string hash: both bound (the second after some load, so mostly elsewhere),
 			// one unbound again, then the other one is used: it is still bound to its channel
@@ -694,7 +710,7 @@ var Profiles = map[string]*Profile{
 	"rr": {Name: "rr", Min: [2]int{1, 6}, Max: [2]int{1, 6}, WM: []int{1, 2, 100}, Fallback: 20, UdMs: []int64{0, 7, 100}, UdCalls: []int{1}, RR: 100, Strict: 50, Shutdown: true,
 		W: map[string]int{"rrwrap": 3, "rrdead": 4, "rrresurrect": 4, "rrlongwait": 3, "emptypool": 1, "resolve": 1, "state": 12, "pick": 30, "done": 8, "adv": 4, "cancel": 4, "allready": 3, "decall": 3, "readyrepl": 4, "staledown": 5, "saturate": 1}, Methods: []int{1, 1, 1, 1, 4, 0, 2}},
 	"addresses": {Name: "addresses", Min: [2]int{1, 3}, Max: [2]int{1, 4}, WM: []int{1, 2}, UdMs: []int64{7, 100}, UdCalls: []int{1}, Strict: 30, Shutdown: true,
-		W: map[string]int{"resolve": 12, "reserr": 4, "state": 6, "pick": 10, "done": 5, "adv": 1, "allready": 3, "decall": 12, "readyrepl": 8, "saturate": 5, "failnew": 1, "refreshcycle": 4}, Methods: []int{0, 0, 2}},
+		W: map[string]int{"resolve": 12, "reserr": 4, "state": 6, "pick": 10, "done": 5, "adv": 1, "allready": 3, "decall": 12, "readyrepl": 8, "saturate": 5, "failnew": 1, "refreshcycle": 4, "reserrdown": 4}, Methods: []int{0, 0, 2}},
 	"cfg": {Name: "cfg", Wild: true, WM: []int{1}, Fallback: 30, UdMs: []int64{0, 7}, UdCalls: []int{0, 1}, RR: 20, Strict: 30, CfgOps: true, NoFirst: 30,
 		W: map[string]int{"resolve": 5, "state": 8, "pick": 22, "done": 8, "adv": 1, "allready": 5, "bindflow": 8, "decall": 2, "readyrepl": 2, "saturate": 8, "growmax": 4, "fillwm": 2}, Methods: append(append([]int{}, hostileMethods...), 10, 10, 11, 12, 13, 13)},
 }
